@@ -563,7 +563,9 @@ def pct_chooser(seed, depth=3, p_timeout=0.15, p_crash=0.0, horizon=260):
                     pick = (a, "timeout")
                 else:
                     continue
-                if st["n"] in change:
+                if st["n"] in change or e.actors[a].pending.kind in ("sleep", "alive"):
+                    # a change point — or the actor sleeps / polls: time passes, everybody else gets to run
+                    # (a back-off loop must not be counted as "the others never ran for 30 s")
                     low[0] -= 1.0
                     prio[a] = low[0]
                 return pick
